@@ -3,6 +3,7 @@
 //! one request line (for the Lean model driver) and one implementation-result line per case.
 mod generate;
 mod rng;
+mod roundtrip;
 mod sexp;
 mod suites;
 
@@ -38,6 +39,21 @@ fn json_str(s: &str) -> String {
 
 fn main() {
     let args: Vec<String> = std::env::args().collect();
+    if args.len() >= 2 && args[1] == "roundtrip" {
+        let seed: u64 = arg(&args, "--seed").and_then(|s| s.parse().ok()).unwrap_or(1);
+        let n: usize = arg(&args, "--n").and_then(|s| s.parse().ok()).unwrap_or(100);
+        std::panic::set_hook(Box::new(|_| {}));
+        let (tried, in_image, nfail, fails) = roundtrip::run(seed, n);
+        let mut out = format!("{{\"tried\": {tried}, \"in_image\": {in_image}, \"failures\": {nfail}, \"cases\": [");
+        for (i, f) in fails.iter().take(200).enumerate() {
+            if i > 0 { out.push_str(", "); }
+            out.push_str(&format!("{{\"lang\": {}, \"class\": {}, \"text\": {}, \"printed\": {}, \"what\": {}}}",
+                json_str(f.lang), json_str(&f.class), json_str(&f.text0), json_str(&f.printed), json_str(&f.what)));
+        }
+        out.push_str("]}");
+        println!("{out}");
+        return;
+    }
     if args.len() < 3 || args[1] != "gen" {
         eprintln!("usage: verif-harness gen <suite> --seed S --n N --out DIR [--corpus DIR]");
         std::process::exit(2);
